@@ -53,12 +53,22 @@ def make_fluid(spec):
 
 
 def build(program):
+    kwn = {}
+    if program.get("sector"):
+        from pandapipes.pandapipes_net import Sector
+        kwn["sector"] = Sector(program["sector"])
     if program.get("fluid_spec"):
-        net = pp.create_empty_network(name=program.get("name", ""), fluid=make_fluid(program["fluid_spec"]))
+        net = pp.create_empty_network(name=program.get("name", ""), fluid=make_fluid(program["fluid_spec"]), **kwn)
     else:
-        net = pp.create_empty_network(name=program.get("name", ""), fluid=program["fluid"])
+        net = pp.create_empty_network(name=program.get("name", ""), fluid=program["fluid"], **kwn)
     for op in program["ops"]:
         apply_create(net, op)
+    for ex in program.get("extras", []):
+        # user-defined column (possibly on a table that stays empty) with its own dtype
+        t = ex["table"]
+        if t in net and ex["column"] not in net[t].columns:
+            fill = {"object": None, "float32": 1.5, "int64": 7}[ex["dtype"]]
+            net[t][ex["column"]] = pd.Series([fill] * len(net[t]), index=net[t].index, dtype=ex["dtype"])
     return net
 
 
@@ -146,7 +156,41 @@ def results_equal_bitwise(a, b):
     return diffs
 
 
-ZERO_FLOW_SENSITIVE = ("lambda", "reynolds")
+# a flow below this is "numerically flowless" for relative comparisons: with step tolerances of 1e-9 the
+# absolute error of a mass flow is ~1e-12..1e-9, i.e. a relative error of 1e-5 or worse for such flows
+ZERO_FLOW_ABS = 1e-5
+ZERO_FLOW_SENSITIVE = ("lambda", "reynolds", "t_from_k", "t_to_k", "t_outlet_k", "normfactor_from", "normfactor_to",
+                       "v_from_m_per_s", "v_to_m_per_s", "v_mean_m_per_s", "vdot_norm_m3_per_s", "vdot_m3_per_s")
+
+
+def flowless_junctions(net, thr_rel=1e-6, thr_abs=1e-5):
+    """Junctions whose every attached, calculated branch carries (numerically) no flow: their temperature is
+    decided by the sign of a round-off flow, i.e. physically undefined."""
+    if "junction" not in net:
+        return set()
+    touched, flowing = set(), set()
+    for t in result_tables(net):
+        el = t[4:]
+        if el not in net or "mdot_from_kg_per_s" not in net[t] or not len(net[t]):
+            continue
+        cols = [c for c in ("from_junction", "to_junction", "return_junction", "flow_junction", "junction", "element") if c in net[el]]
+        if el == "valve":
+            cols = ["junction"] + (["element"] if True else [])
+        m = np.abs(net[t]["mdot_from_kg_per_s"].values.astype(np.float64))
+        scale = max(np.nanmax(m) if len(m) and not np.all(np.isnan(m)) else 0.0, 1e-3)
+        thr = max(thr_rel * scale, thr_abs)
+        for pos, idx in enumerate(net[t].index):
+            if idx not in net[el].index or np.isnan(m[pos]):
+                continue
+            js = []
+            for c in cols:
+                if el == "valve" and c == "element" and net[el].at[idx, "et"] != "ju":
+                    continue
+                js.append(net[el].at[idx, c])
+            touched.update(js)
+            if m[pos] >= thr:
+                flowing.update(js)
+    return touched - flowing
 # absolute noise floor per result column family when two *different* floating point programs are
 # compared after solves with tol_m = tol_p = 1e-9 (a flowless loop converges only linearly, so its
 # circulating flow is decided by the stopping rule: |mdot| <~ 1e-8 kg/s, v = mdot/(rho*A) <~ 1e-5 m/s)
@@ -161,7 +205,7 @@ def _atol_for(col, default):
     return default
 
 
-def results_close(a, b, rtol=1e-9, atol=1e-12, tables=None, index_map=None, mask_zero_flow=False):
+def results_close(a, b, rtol=1e-9, atol=1e-12, tables=None, index_map=None, mask_zero_flow=False, skip_junction_t=None):
     """Tolerance comparison (different fp programs). index_map: {table: {idx_a: idx_b}}."""
     diffs = []
     ta, tb = result_tables(a), result_tables(b)
@@ -192,11 +236,14 @@ def results_close(a, b, rtol=1e-9, atol=1e-12, tables=None, index_map=None, mask
             ma = np.abs(da["mdot_from_kg_per_s"].values.astype(np.float64))
             mb = np.abs(db["mdot_from_kg_per_s"].values.astype(np.float64))
             scale = max(np.nanmax(ma) if len(ma) and not np.all(np.isnan(ma)) else 0.0, 1e-3)
-            thr = max(1e-6 * scale, 1e-7)
+            thr = max(1e-6 * scale, ZERO_FLOW_ABS)
             zero_rows = (ma < thr) | (mb < thr)
         for c in da.columns:
             va = da[c].values.astype(np.float64)
             vb = db[c].values.astype(np.float64)
+            if t == "res_junction" and c == "t_k" and skip_junction_t:
+                keep = ~np.isin(da.index.values, list(skip_junction_t))
+                va, vb = va[keep], vb[keep]
             if zero_rows is not None and c in ZERO_FLOW_SENSITIVE:
                 va = va[~zero_rows]
                 vb = vb[~zero_rows]
